@@ -277,12 +277,29 @@ def use_class_table(arm_body, varname):
     return out
 
 
+def canon_use_sets(fn):
+    """rename the working sets of cache_variable_use to the names of the setters they are handed to"""
+    import copy
+    f = copy.deepcopy(fn)
+    mp = {}
+    for m in walk(f["body"]):
+        if m["k"] == "MethodCall" and m["method"].startswith("set_") and m["args"] and m["method"][4:].split("_")[0] in ("locals", "signals", "components"):
+            a = strip(m["args"][0])
+            if a["k"] == "Path" and a["path"] != m["method"][4:]:
+                mp[a["path"]] = m["method"][4:]
+    if mp:
+        alpha.rename(f["body"], mp)
+    return f
+
+
 def rule_uses(ctx):
     R = "C09.5"
     ctx.rule(R, "variable uses are recorded in the class of the variable's type (local / signal / component) for reads (Variable, Access, Update = read of the previous whole-array version) and writes (Substitution), and every child's reads are merged into its parent for all three classes")
     fn = find_fn(EI, "cache_variable_use", "VariableMeta for Expression")
     if fn is None:
         return ctx.missing(R, "Expression::cache_variable_use")
+    fn = canon_use_sets(fn)
+    fn, _mm = alpha.canon_fields(fn, [("meta", "Variable", "meta"), ("name", "Variable", "name"), ("meta", "Access", "meta"), ("var", "Access", "var"), ("access", "Access", "access"), ("meta", "Update", "meta"), ("var", "Update", "var"), ("access", "Update", "access"), ("rhe", "Update", "rhe")])
     ms = [m for m in walk(fn["body"]) if m["k"] == "Match" and render(strip(m["scrut"])) == "self"]
     if not ms:
         return ctx.missing(R, "Expression::cache_variable_use/match")
@@ -331,6 +348,11 @@ def rule_uses(ctx):
     sfn = find_fn(SI, "cache_variable_use", "VariableMeta for Statement")
     if sfn is None:
         return ctx.missing(R, "Statement::cache_variable_use")
+    sfn = canon_use_sets(sfn)
+    sfn, _mm = alpha.canon_fields(sfn, [("meta", "Substitution", "meta"), ("var", "Substitution", "var"), ("op", "Substitution", "op"), ("rhe", "Substitution", "rhe")])
+    for n_ in walk(sfn["body"]):
+        if n_["k"] == "Local" and n_["pat"]["k"] == "PIdent" and n_["init"] is not None and n_["init"]["k"] == "Match" and "Update" in render(n_["init"]) and n_["pat"]["name"] != "access":
+            alpha.rename(sfn["body"], {n_["pat"]["name"]: "access"})
     ms = [m for m in walk(sfn["body"]) if m["k"] == "Match" and render(strip(m["scrut"])) == "self"]
     arm = [a for a in ms[0]["arms"] if "Substitution" in render(a["pat"])] if ms else []
     if len(arm) != 1:
